@@ -135,9 +135,9 @@ def is_plain_name(w):
 
 BASE_NAMES = [w for w in ['a', 'b', 'c', 'y', 'z', 't1', 't2', 'foo', 'bar', 'baz', 'col1', 'col_2', 'tbl', 'usr', 'amt', 'qty',
                           'Ab', 'ÀB', 'o1', 'id2', '_u', 'v_x', 'n9', 'emp', 'dept', 'sal', 'k', 'm', 'nm', 'prc', 'ord', 'itm',
-                          'cust', 'éa', 'Öl', 'ßz', 'Жук', 'T', 'Emp_No', 'ünï'] if is_plain_name(w)]
+                          'cust', 'éa', 'Öl', 'ßz', 'Жук', 'T', 'Emp_No', 'ünï', 'serial#', 'emp#', 'v$sess', 'a$b', 'x#1', 'rev#', 'sys$'] if is_plain_name(w)]
 _start = 'abcdfghijklmopqrstvwyzACDFGHIJKLMOPQRSTVWYZ_ÀÖÜéßЖ中'
-_rest = 'abcxyzABC_0123456789éÜЖ'      # no $ or #: after a dot the lexer ends a name there (by design)
+_rest = 'abcxyzABC_0123456789éÜЖ$#'    # $ and # continue a word (Oracle serial#, v$session), also at its end
 drawn_name = st.builds(lambda a, b: a + b, st.sampled_from(_start), st.text(alphabet=_rest, max_size=5)).filter(is_plain_name)
 plain_name_text = st.one_of(st.sampled_from(BASE_NAMES), st.sampled_from(BASE_NAMES), drawn_name)
 plain_name = plain_name_text.map(lambda n: L('name', n, False, name=n))
@@ -269,7 +269,8 @@ def expr(depth=2):
         st.tuples(column_ref, st.sampled_from(TYPES)).map(lambda t: seq(t[0], P('::'), L('type', t[1], True))),
         st.tuples(sub, st.sampled_from(TYPES)).map(lambda t: W('func', seq(L('name', 'CAST', False, func=True), L('lp', '(', True, force=True), tight_first(seq(t[0], kw('AS'), L('type', t[1]))), RP()), name='CAST', nargs=-1)),
         TYPED.map(typed_literal),
-        st.tuples(plain_name, st.integers(0, 9)).map(lambda t: seq(t[0], L('lb', '[', True, force=True), L('num', str(t[1]), True), L('rb', ']', True))),
+        # (behind a name ending in $ or # a bracket starts a [quoted name], not an index: documented lexer rule)
+        st.tuples(plain_name.filter(lambda n: n[1][-1] not in '$#'), st.integers(0, 9)).map(lambda t: seq(t[0], L('lb', '[', True, force=True), L('num', str(t[1]), True), L('rb', ']', True))),
         st.just(func_call('count', [[L('star', '*', True)]])),
         select(depth - 1).map(lambda s: W('paren', paren(s), subquery=True)),
     )
@@ -510,8 +511,12 @@ def case_heavy_select():
                            lambda t: seq(t[0], opl(t[1]), L('op', t[2]), t[3])),
                        # a sign written directly behind a comparison or '*' (a=-b, x>=+y, a*-b): two tokens for the lexer
                        st.tuples(column_ref, st.sampled_from(['=', '>=', '<>', '<', '*']), st.sampled_from(['-', '+']), column_ref).map(
-                           lambda t: seq(t[0], L('cmp', t[1], True) if t[1] != '*' else opl('*'), L('op', t[2], True, after_cmp=True), tight_first(t[3]))))
-    item = st.one_of(st.tuples(case, alias).map(lambda t: with_alias(*t)), st.tuples(case, alias).map(lambda t: with_alias(*t)), e, call, call, signed)
+                           lambda t: seq(t[0], L('cmp', t[1], True) if t[1] != '*' else opl('*'), L('op', t[2], True, after_cmp=True), tight_first(t[3]))),
+                       # ... and the same written without any blank: a=-b
+                       st.tuples(plain_name, st.sampled_from(['=', '>=', '<>', '<', '*']), st.sampled_from(['-', '+']), plain_name).map(
+                           lambda t: seq([t[0]], L('cmp', t[1], True, force=True) if t[1] != '*' else L('star', '*', True, force=True),
+                                         L('op', t[2], True, after_cmp=True, force=True), [[t[3][0], t[3][1], True, dict(t[3][3], force=True)]])))
+    item = weighted((2, st.tuples(case, alias).map(lambda t: with_alias(*t))), (1, e), (2, call), (2, signed))
 
     def mk(items, frm, where, order):
         out = [L('kw', 'SELECT', False, lead='SELECT')]
